@@ -59,10 +59,11 @@ const (
 	sinkDistribute
 	sinkLoad
 	sinkCount
+	sinkPeekSplit // Next + PushBack, then several consumers sharing the stream through Split()
 	nSinks
 )
 
-var sinkNames = []string{"collect", "DivideOn", "Distribute", "Load", "Count"}
+var sinkNames = []string{"collect", "DivideOn", "Distribute", "Load", "Count", "peek+PushBack+Split consumers"}
 
 type stream struct {
 	Recs    []Rec
@@ -586,6 +587,35 @@ func runIterPlan(rc *RunCtx, p iterPlan, hasMerge []bool) (SimResult, *iterOutpu
 				simrt.Go("consume-key", func() { defer wg.Done(); collectFrom(o, c) })
 			}
 			wg.Wait()
+		case sinkPeekSplit:
+			// the pattern of WriteSequence and of the CSV writer: look at the first batch, push
+			// it back, then let several workers consume the stream
+			if it.Next() {
+				it.PushBack()
+			}
+			var wg simrt.WaitGroup
+			var mu simrt.Mutex
+			c := &collected{}
+			out.outs["out"] = c
+			nw := 1 + p.SinkB
+			for w := 0; w < nw; w++ {
+				src := it
+				if w > 0 {
+					src = it.Split()
+				}
+				wg.Add(1)
+				simrt.Go("split-consumer", func() {
+					defer wg.Done()
+					mine := &collected{}
+					collectFrom(src, mine)
+					mu.Lock()
+					c.orders = append(c.orders, mine.orders...)
+					c.ids = append(c.ids, mine.ids...)
+					c.mates = append(c.mates, mine.mates...)
+					mu.Unlock()
+				})
+			}
+			wg.Wait()
 		case sinkLoad:
 			_, sl := it.Load()
 			for _, s := range sl {
@@ -696,7 +726,7 @@ func runC03(rc *RunCtx) {
 		return true
 	}
 	switch p.Sink {
-	case sinkCollect:
+	case sinkCollect, sinkPeekSplit:
 		ids, mates, numbering := out.outs["out"].flat()
 		if numbering != "" {
 			rc.Violate("C03/batch-numbering/"+comp, "%s\nplan: %s", numbering, desc)
